@@ -64,9 +64,6 @@ func c03(r *core.Run) {
 	isTreeAdd := core.CallMethod("search.Tree", "Add")
 	isTreeSearch := core.CallMethod("search.Tree", "Search")
 	isClean := core.CallTo("path.Clean")
-	slashAtom := func(s func(ssa.Value) bool) core.Atom {
-		return core.Cmp(token.EQL, b2Index0(s), core.IsConstInt('/'))
-	}
 	colonAtom := func(s func(ssa.Value) bool) core.Atom {
 		return core.Cmp(token.EQL, b2Index0(s), core.IsConstInt(':'))
 	}
@@ -91,10 +88,10 @@ func c03(r *core.Run) {
 		if w := core.Requires(handle, isTreeAdd, core.BoolVal(isValid)); w != nil {
 			o.Fail(p.InstrPos(w), "Tree.Add reachable although the method validator rejected (or was not asked about) the method: an unsupported method gets registered")
 		}
-		if w := core.Requires(handle, isTreeAdd, slashAtom(b2Param(handle, 2))); w != nil {
+		if w := core.Requires(handle, isTreeAdd, c03Rooted(b2Param(handle, 2))); w != nil {
 			o.Fail(p.InstrPos(w), "Tree.Add reachable for a path that does not start with '/'")
 		}
-		if w := core.Requires(handle, isTreeAdd, b2NonEmpty(b2Param(handle, 2))); w != nil {
+		if w := core.Requires(handle, isTreeAdd, c03NonEmpty(b2Param(handle, 2))); w != nil {
 			o.Fail(p.InstrPos(w), "Tree.Add (or reqPath[0]) reachable for an empty path")
 		}
 	})
@@ -120,9 +117,12 @@ func c03(r *core.Run) {
 		for _, c := range b2StrConstsCompared(vf, b2Param(vf, 0)) {
 			cands[c] = true
 		}
+		for _, c := range b2ConstMapKeysLookedUp(vf, b2Param(vf, 0)) { // members of a constant set the method is looked up in
+			cands[c] = true
+		}
 		o.Site(len(cands), core.FuncName(vf))
 		for s := range cands {
-			got, err := b2EvalBoolFn(vf, 0, s)
+			got, err := c03EvalValidator(p, vf, s)
 			if err != nil {
 				o.Unres("%s cannot be evaluated: %v", core.FuncName(vf), err)
 				return
@@ -213,10 +213,10 @@ func c03(r *core.Run) {
 			o.Fail(p.Pos(treeAdd.Pos()), "Tree.Add does not insert below t.root")
 			return
 		}
-		if w := core.Requires(treeAdd, isIns, slashAtom(b2Param(treeAdd, 1))); w != nil {
+		if w := core.Requires(treeAdd, isIns, c03Rooted(b2Param(treeAdd, 1))); w != nil {
 			o.Fail(p.InstrPos(w), "insert reachable for a route that does not start with '/'")
 		}
-		if w := core.Requires(treeAdd, isIns, b2NonEmpty(b2Param(treeAdd, 1))); w != nil {
+		if w := core.Requires(treeAdd, isIns, c03NonEmpty(b2Param(treeAdd, 1))); w != nil {
 			o.Fail(p.InstrPos(w), "insert reachable for an empty route")
 		}
 		if w := core.Requires(treeAdd, isIns, core.Cmp(token.NEQ, b2Param(treeAdd, 2), core.IsNil)); w != nil {
@@ -737,20 +737,8 @@ func c03(r *core.Run) {
 				sl := in.(*ssa.Slice)
 				n++
 				r.Fn(core.FuncName(f))
-				sep := core.Cmp(token.EQL, func(v ssa.Value) bool {
-					var x, idx ssa.Value
-					switch lk := v.(type) {
-					case *ssa.Lookup:
-						x, idx = lk.X, lk.Index
-					case *ssa.Index:
-						x, idx = lk.X, lk.Index
-					default:
-						return false
-					}
-					return core.Describe(idx) == core.Describe(sl.High) && core.Describe(x) == core.Describe(sl.X)
-				}, core.IsConstInt('/'))
-				if w := core.Requires(f, core.Is(in), sep); w != nil {
-					o.Fail(p.InstrPos(in), "%s takes the prefix %s[:%s] without having established that a '/' sits at that index (segment and separator get mixed)", core.FuncName(f), core.Describe(sl.X), core.Describe(sl.High))
+				if why := c03SepAt(f, sl.X, sl.High, c03Tgt{in: in}, 0); why != "" {
+					o.Fail(p.InstrPos(in), "%s takes the prefix %s[:%s] %s (segment and separator get mixed)", core.FuncName(f), core.Describe(sl.X), core.Describe(sl.High), why)
 				}
 			}
 		}
